@@ -197,6 +197,7 @@ class SimConn:
         if not self.client_open:
             return
         self.client_open = False
+        self.net.open_set.discard(self)
         self.t_client_closed = self.net.loop.time()
         self.client_close_reason = reason
         self.net.ctx.event("cli_close", self.no, reason)
@@ -369,6 +370,7 @@ class SimNet:
         self.connect_decider = None  # callable(host) -> (outcome, delay)
         self.pre_deliver = None
         self.post_deliver = None
+        self.open_set: set = set()
         self.accept_cb = None
         loop.net = self
 
@@ -405,6 +407,7 @@ class SimNet:
         spec = self.hosts[host]
         conn = SimConn(self, len(self.conns), host, sock, None)
         self.conns.append(conn)
+        self.open_set.add(conn)
         sock.conn = conn
         if sock.family == _socket.AF_INET6:
             sock.peer = (host, address[1], 0, address[3] if len(address) > 3 else 0)
@@ -487,7 +490,7 @@ class SimNet:
 
     # ---- views --------------------------------------------------------------------------------------
     def client_open_conns(self) -> list[SimConn]:
-        return [c for c in self.conns if c.client_open]
+        return sorted(self.open_set, key=lambda c: c.no)
 
 
 # ======================================================================================
